@@ -776,3 +776,339 @@ Proof.
   unfold final in Hf. destruct (s_m s) eqn:Em; try discriminate.
   split; [apply H1; discriminate|]. split; [apply H3; reflexivity | apply H2; right; reflexivity].
 Qed.
+
+(* ---------------- C06: no reachable state is stuck ---------------- *)
+Definition cnone {A} (l : list (option A)) : nat := length (filter (fun o => match o with None => true | Some _ => false end) l).
+Definition cexit (w : list wpc) : nat := length (filter is_exit w).
+Definition sent_of (p : plan) (f : fpc) : nat := match f with FStop sent _ => sent | FDone _ => p_workers p | _ => 0 end.
+Definition eoi (f : fpc) : nat := match f with FStop _ false | FDone false => 1 | _ => 0 end.
+Definition stopped (m : mpc) : nat := match m with MJoinHash | MJoinWorkers | MFinal => 1 | _ => 0 end.
+Definition hexit (h : hpc) : nat := match h with HExit => 1 | HRecv => 0 end.
+
+Record Inv2 (p : plan) (s : pstate) : Prop := mkInv2 {
+  J_cons : feeding (s_f s) = true -> length (owners s) = nbuf p;
+  J_tok : cexit (s_w s) + cnone (s_encq s) = sent_of p (s_f s) /\ sent_of p (s_f s) <= p_workers p;
+  J_done : (exists fl, s_f s = FDone fl) -> s_m s <> MFeeding;
+  J_hash : cnone (s_hashq s) + hexit (s_h s) = eoi (s_f s) + stopped (s_m s)
+}.
+
+Lemma cnone_app {A} (a b : list (option A)) : cnone (a ++ b) = cnone a + cnone b.
+Proof. unfold cnone. rewrite filter_app, app_length. reflexivity. Qed.
+
+Lemma cnone_cons_Some {A} (b : A) r : cnone (Some b :: r) = cnone r.
+Proof. reflexivity. Qed.
+Lemma cnone_cons_None {A} (r : list (option A)) : cnone (None :: r) = S (cnone r).
+Proof. reflexivity. Qed.
+Lemma cnone_nil {A} : cnone (@nil (option A)) = 0.
+Proof. reflexivity. Qed.
+
+Lemma cexit_set_nth : forall (l : list wpc) i old new,
+  nth_error l i = Some old -> cexit (set_nth l i new) + (if is_exit old then 1 else 0) = cexit l + (if is_exit new then 1 else 0).
+Proof.
+  unfold cexit. induction l as [|y t IH]; intros i old new H; [destruct i; discriminate|].
+  destruct i; cbn [nth_error] in H; cbn [set_nth filter].
+  - inversion H; subst. destruct (is_exit old), (is_exit new); cbn [length]; lia.
+  - specialize (IH i old new H). destruct (is_exit y); cbn [length]; lia.
+Qed.
+
+Lemma cexit_repeat_WRecv k : cexit (repeat WRecv k) = 0.
+Proof. unfold cexit. induction k as [|k IH]; cbn; [reflexivity | exact IH]. Qed.
+
+Theorem inv2_init p : Inv2 p (init p).
+Proof.
+  unfold init. constructor; cbn [s_w s_f s_next s_refill s_encq s_bufs s_results s_failed s_hashq s_hashed s_h s_m].
+  - intros _. unfold owners. cbn [s_w s_f s_refill s_encq somes flat_map fbuf app].
+    rewrite (flat_map_repeat_nil wbuf WRecv) by reflexivity. rewrite app_nil_r. apply seq_length.
+  - rewrite cexit_repeat_WRecv. cbn. split; lia.
+  - intros [fl H]. discriminate.
+  - reflexivity.
+Qed.
+
+Lemma len_flat_set_nth (f : wpc -> list nat) (l : list wpc) i old new :
+  nth_error l i = Some old -> length (flat_map f (set_nth l i new)) + length (f old) = length (flat_map f l) + length (f new).
+Proof.
+  intros H. destruct (flat_map_set_nth f l i old new H) as (pre & post & E1 & E2). rewrite E1, E2, !app_length. lia.
+Qed.
+
+Ltac norm2 := unfold owners, upd_f, upd_w in *; cbn [s_f s_next s_refill s_encq s_bufs s_w s_results s_failed s_hashq s_hashed s_h s_m] in *.
+
+Theorem inv2_step p s l s' : Inv2 p s -> step p s l = Some s' -> Inv2 p s'.
+Proof.
+  intros [Jc [Jt1 Jt2] Jd Jh] E. destruct s as [f nx refill encq bufs w results failedl hashq hashed h m]. norm2.
+  destruct l; cbn [step s_f s_refill s_encq s_w s_bufs s_h s_hashq s_m s_next] in E.
+  - (* LFRecv *) destruct f; try discriminate. destruct refill as [|b r]; [discriminate|]. inversion E; subst s'. constructor; norm2.
+    + intros _. specialize (Jc eq_refl). rewrite !app_length in *. cbn [fbuf length] in *. lia.
+    + split; assumption.
+    + intros [fl H]. discriminate.
+    + exact Jh.
+  - (* LFRead *) destruct f as [|b| | |]; try discriminate. unfold read_fails in E. cbn [s_next s_hashq] in E.
+    destruct (match p_read_fail p with Some k => Nat.eqb k nx | None => false end).
+    + inversion E; subst s'. constructor; norm2; [discriminate | cbn [sent_of] in *; split; lia | intros [fl H]; discriminate | exact Jh].
+    + destruct (Nat.ltb (length hashq) HASH_CAP); [|discriminate].
+      destruct (Nat.ltb nx (p_blocks p)); inversion E; subst s'; constructor; norm2.
+      * intros _. specialize (Jc eq_refl). rewrite !app_length in *. cbn [fbuf length] in *. lia.
+      * split; assumption.
+      * intros [fl H]. discriminate.
+      * rewrite cnone_app. rewrite ?cnone_cons_Some, ?cnone_cons_None, ?cnone_nil in *. cbn [eoi] in *. lia.
+      * discriminate.
+      * cbn [sent_of] in *. split; lia.
+      * intros [fl H]. discriminate.
+      * rewrite cnone_app. rewrite ?cnone_cons_Some, ?cnone_cons_None, ?cnone_nil in *. cbn [eoi] in *. lia.
+  - (* LFSend *) destruct f as [| |b| |]; try discriminate. destruct (Nat.ltb (length encq) (qcap p)); [|discriminate].
+    inversion E; subst s'. constructor; norm2.
+    + intros _. specialize (Jc eq_refl). rewrite somes_app, !app_length in *. cbn [somes flat_map fbuf length app] in *. lia.
+    + rewrite cnone_app. rewrite ?cnone_cons_Some, ?cnone_cons_None, ?cnone_nil in *. cbn [sent_of] in *. split; lia.
+    + intros [fl H]. discriminate.
+    + exact Jh.
+  - (* LFStop *) destruct f as [| | |sent fl|]; try discriminate. destruct (Nat.ltb sent (p_workers p)) eqn:Es; [|discriminate].
+    destruct (Nat.ltb (length encq) (qcap p)); [|discriminate]. inversion E; subst s'. apply Nat.ltb_lt in Es. constructor; norm2.
+    + discriminate.
+    + rewrite cnone_app. rewrite ?cnone_cons_Some, ?cnone_cons_None, ?cnone_nil in *. cbn [sent_of] in *. split; lia.
+    + intros [fl' H]. discriminate.
+    + exact Jh.
+  - (* LFDone *) destruct f as [| | |sent fl|]; try discriminate. destruct m; try discriminate.
+    destruct (Nat.eqb sent (p_workers p)) eqn:Es; [|discriminate]. apply Nat.eqb_eq in Es. inversion E; subst s'. constructor; norm2.
+    + discriminate.
+    + cbn [sent_of] in *. split; lia.
+    + intros _. discriminate.
+    + destruct fl; exact Jh.
+  - (* LWRecv *) destruct (nth_error w w0) as [[| | |]|] eqn:Ei; try discriminate.
+    destruct encq as [|[b|] r]; try discriminate; inversion E; subst s'; constructor; norm2.
+    + intros Hf. specialize (Jc Hf). pose proof (len_flat_set_nth wbuf w w0 WRecv (WEnc b) Ei) as Hl.
+      rewrite somes_cons_Some in Jc. rewrite !app_length in *. cbn [wbuf length] in *. lia.
+    + pose proof (cexit_set_nth w w0 WRecv (WEnc b) Ei) as Hc. cbn [is_exit] in Hc. rewrite ?cnone_cons_Some, ?cnone_cons_None, ?cnone_nil in *. split; lia.
+    + exact Jd.
+    + exact Jh.
+    + intros Hf. specialize (Jc Hf). pose proof (len_flat_set_nth wbuf w w0 WRecv WExit Ei) as Hl.
+      rewrite somes_cons_None in Jc. rewrite !app_length in *. cbn [wbuf length] in *. lia.
+    + pose proof (cexit_set_nth w w0 WRecv WExit Ei) as Hc. cbn [is_exit] in Hc. rewrite ?cnone_cons_Some, ?cnone_cons_None, ?cnone_nil in *. split; lia.
+    + exact Jd.
+    + exact Jh.
+  - (* LWEnc *) destruct (nth_error w w0) as [[|b| |]|] eqn:Ei; try discriminate.
+    destruct (nth_error bufs b) as [[n|]|]; try discriminate.
+    destruct (p_invalid p n); inversion E; subst s'; constructor; norm2.
+    + intros Hf. specialize (Jc Hf). pose proof (len_flat_set_nth wbuf w w0 (WEnc b) WRecv Ei) as Hl.
+      rewrite !app_length in *. cbn [wbuf length] in *. lia.
+    + pose proof (cexit_set_nth w w0 (WEnc b) WRecv Ei) as Hc. cbn [is_exit] in Hc. split; lia.
+    + exact Jd.
+    + exact Jh.
+    + intros Hf. specialize (Jc Hf). pose proof (len_flat_set_nth wbuf w w0 (WEnc b) (WPush n) Ei) as Hl.
+      rewrite !app_length in *. cbn [wbuf length] in *. lia.
+    + pose proof (cexit_set_nth w w0 (WEnc b) (WPush n) Ei) as Hc. cbn [is_exit] in Hc. split; lia.
+    + exact Jd.
+    + exact Jh.
+  - (* LWPush *) destruct (nth_error w w0) as [[| |n|]|] eqn:Ei; try discriminate. inversion E; subst s'. constructor; norm2.
+    + intros Hf. specialize (Jc Hf). pose proof (len_flat_set_nth wbuf w w0 (WPush n) WRecv Ei) as Hl.
+      rewrite !app_length in *. cbn [wbuf length] in *. lia.
+    + pose proof (cexit_set_nth w w0 (WPush n) WRecv Ei) as Hc. cbn [is_exit] in Hc. split; lia.
+    + exact Jd.
+    + exact Jh.
+  - (* LHRecv *) destruct h; [|discriminate]. destruct hashq as [|[j|] r]; try discriminate; inversion E; subst s'; constructor; norm2;
+      try assumption; try (split; assumption); rewrite ?cnone_cons_Some, ?cnone_cons_None, ?cnone_nil in *; cbn [hexit] in *; lia.
+  - (* LMStopHash *) destruct m; try discriminate. destruct (Nat.ltb (length hashq) HASH_CAP); [|discriminate]. inversion E; subst s'.
+    constructor; norm2; try assumption; try (split; assumption).
+    + intros _. discriminate.
+    + rewrite cnone_app. rewrite ?cnone_cons_Some, ?cnone_cons_None, ?cnone_nil in *. cbn [stopped] in *. lia.
+  - (* LMJoinHash *) destruct m; try discriminate. destruct h; try discriminate. inversion E; subst s'.
+    constructor; norm2; try assumption; try (split; assumption). intros _. discriminate.
+  - (* LMJoinWorkers *) destruct m; try discriminate. destruct (forallb _ w); [|discriminate]. inversion E; subst s'.
+    constructor; norm2; try assumption; try (split; assumption). intros _. discriminate.
+Qed.
+
+(* ---- enabledness of the worker steps ---- *)
+Definition busy (x : wpc) : bool := match x with WEnc _ | WPush _ => true | _ => false end.
+
+Lemma workers_classify : forall w : list wpc,
+  (exists i x, nth_error w i = Some x /\ busy x = true) \/ Forall (fun x => x = WRecv \/ x = WExit) w.
+Proof.
+  induction w as [|y t IH]; [right; constructor|].
+  destruct IH as [(i & x & Hi & Hb)|Hall].
+  - left. exists (S i), x. split; assumption.
+  - destruct y.
+    + right. constructor; [left; reflexivity | exact Hall].
+    + left. exists 0, (WEnc b). split; reflexivity.
+    + left. exists 0, (WPush n). split; reflexivity.
+    + right. constructor; [right; reflexivity | exact Hall].
+Qed.
+
+Lemma idle_has_recv : forall w : list wpc,
+  Forall (fun x => x = WRecv \/ x = WExit) w -> cexit w < length w -> exists i, nth_error w i = Some WRecv.
+Proof.
+  unfold cexit. induction w as [|y t IH]; intros Hall Hlt; [cbn in Hlt; lia|].
+  inversion Hall as [|? ? Hy Ht]; subst. destruct Hy as [->| ->].
+  - exists 0. reflexivity.
+  - cbn [filter is_exit length] in Hlt. destruct (IH Ht ltac:(lia)) as [i Hi]. exists (S i). exact Hi.
+Qed.
+
+Lemma busy_enabled p s i x :
+  Inv p s -> nth_error (s_w s) i = Some x -> busy x = true -> exists l s', step p s l = Some s'.
+Proof.
+  intros HI Hi Hb. destruct x as [|b|n|]; try discriminate.
+  - destruct (I_live p s HI b) as (n & Hn & _).
+    { unfold live_bufs. rewrite !in_app_iff. right. left.
+      destruct (flat_map_set_nth wbuf (s_w s) i (WEnc b) WRecv Hi) as (pre & post & E1 & _). rewrite E1, !in_app_iff. cbn. tauto. }
+    exists (LWEnc i). cbn [step]. rewrite Hi, Hn. destruct (p_invalid p n); eexists; reflexivity.
+  - exists (LWPush i). cbn [step]. rewrite Hi. eexists. reflexivity.
+Qed.
+
+Lemma recv_enabled p s i : nth_error (s_w s) i = Some WRecv -> s_encq s <> [] -> exists l s', step p s l = Some s'.
+Proof.
+  intros Hi Hq. exists (LWRecv i). cbn [step]. rewrite Hi. destruct (s_encq s) as [|[b|] r]; [contradiction | |]; eexists; reflexivity.
+Qed.
+
+Lemma owners_le_nbuf p s : Inv p s -> length (owners s) <= nbuf p.
+Proof.
+  intros HI. pose proof (I_own p s HI) as Hnd. destruct (I_bnd p s HI) as [_ Hb].
+  rewrite <- (seq_length (nbuf p) 0). apply NoDup_incl_length; [exact Hnd|].
+  intros x Hx. apply in_seq. specialize (Hb x Hx). lia.
+Qed.
+
+Lemma cnone_pos_nonempty {A} (l : list (option A)) : 1 <= cnone l -> l <> [].
+Proof. intros H E. subst l. cbn in H. lia. Qed.
+
+Lemma somes_length_le {A} (l : list (option A)) : length (somes l) + cnone l = length l.
+Proof.
+  induction l as [|[x|] t IH]; [reflexivity| |].
+  - rewrite somes_cons_Some, cnone_cons_Some. cbn [length]. lia.
+  - rewrite somes_cons_None, cnone_cons_None. cbn [length]. lia.
+Qed.
+
+Lemma filter_len_le {A} (f : A -> bool) (l : list A) : length (filter f l) <= length l.
+Proof. induction l as [|x t IH]; [reflexivity|]. cbn [filter]. destruct (f x); cbn [length]; lia. Qed.
+
+Lemma all_exit_of_count (w : list wpc) :
+  length w <= cexit w -> forallb (fun w0 => match w0 with WExit => true | _ => false end) w = true.
+Proof.
+  unfold cexit. induction w as [|x t IH]; intros H; [reflexivity|].
+  cbn [filter length forallb] in *. pose proof (filter_len_le is_exit t) as Hle.
+  destruct x; cbn [is_exit length] in H; try lia. apply IH. lia.
+Qed.
+
+(* C06: a reachable state that is not final always has an enabled step *)
+Theorem progress p s :
+  1 <= p_workers p -> Inv p s -> Inv2 p s -> final s = false -> exists l s', step p s l = Some s'.
+Proof.
+  intros HW HI [Jc [Jt1 Jt2] Jd Jh] Hnf.
+  pose proof (workers_classify (s_w s)) as Hcls.
+  pose proof (I_w p s HI) as Hlen.
+  (* a worker in the middle of a frame can always go on *)
+  destruct Hcls as [(i & x & Hi & Hb)|Hidle]; [exact (busy_enabled p s i x HI Hi Hb)|].
+  assert (Hrecv : cexit (s_w s) < p_workers p -> s_encq s <> [] -> exists l s', step p s l = Some s').
+  { intros Hc Hq. destruct (idle_has_recv (s_w s) Hidle ltac:(lia)) as [i Hi]. exact (recv_enabled p s i Hi Hq). }
+  assert (Hwbufs : flat_map wbuf (s_w s) = []).
+  { clear -Hidle. induction Hidle as [|x t Hx Ht IH]; [reflexivity|]. destruct Hx as [->| ->]; cbn [flat_map wbuf app]; exact IH. }
+  destruct (I_encq p s HI) as (bs & t & Eqq & Hfeed & _).
+  destruct (I_hash p s HI) as (xs & k & Eqh & _ & Hhfeed & Hhx).
+  destruct (I_ctl p s HI) as (Hc1 & Hc2 & Hc3).
+  destruct s as [f nx refill encq bufs w results failedl hashq hashed h m].
+  unfold owners in *. cbn [s_f s_next s_refill s_encq s_bufs s_w s_results s_failed s_hashq s_hashed s_h s_m final] in *.
+  destruct m; try discriminate.
+  - (* the caller is still feeding *)
+    destruct f as [|b|b|sent fl|fl].
+    + (* waiting for a buffer *)
+      destruct refill as [|b r].
+      * destruct (Hfeed eq_refl) as [-> Hnoexit]. specialize (Jc eq_refl). cbn [repeat fbuf] in *. rewrite app_nil_r in Eqq.
+        rewrite Hwbufs in Jc. cbn [app length] in Jc. rewrite app_nil_r in Jc.
+        assert (Hex0 : cexit w = 0).
+        { clear -Hnoexit. unfold cexit. induction w as [|x t IH]; [reflexivity|]. cbn [forallb] in Hnoexit. apply Bool.andb_true_iff in Hnoexit.
+          destruct Hnoexit as [H1 H2]. cbn [filter]. destruct (is_exit x); [discriminate|]. apply IH. exact H2. }
+        apply Hrecv; [lia|]. intros ->. cbn in Jc. unfold nbuf in Jc. change (N.to_nat c_PAR_FRAMEBUF_MULTIPLICITY) with 2 in Jc. lia.
+      * exists LFRecv. eexists. reflexivity.
+    + (* about to read *)
+      cbn [step s_f]. unfold read_fails. cbn [s_next s_hashq].
+      destruct (match p_read_fail p with Some k0 => Nat.eqb k0 nx | None => false end) eqn:Erf.
+      * exists LFRead. cbn [step s_f]. unfold read_fails. cbn [s_next]. rewrite Erf. eexists. reflexivity.
+      * destruct (Nat.ltb (length hashq) HASH_CAP) eqn:Ecap.
+        -- exists LFRead. cbn [step s_f]. unfold read_fails. cbn [s_next s_hashq]. rewrite Erf, Ecap. destruct (Nat.ltb nx (p_blocks p)); eexists; reflexivity.
+        -- destruct (Hhfeed eq_refl) as [_ ->]. exists LHRecv. cbn [step s_h s_hashq].
+           destruct hashq as [|[j|] r]; [cbn in Ecap; discriminate | |]; eexists; reflexivity.
+    + (* about to enqueue: the encode queue cannot be full *)
+      exists LFSend. cbn [step s_f s_encq].
+      destruct (Hfeed eq_refl) as [-> _]. cbn [repeat] in Eqq. rewrite app_nil_r in Eqq.
+      pose proof (owners_le_nbuf p _ HI) as Hle. unfold owners in Hle. cbn [s_refill s_encq s_f s_w fbuf] in Hle.
+      rewrite !app_length in Hle. cbn [length] in Hle.
+      assert (Hq : length encq = length (somes encq)) by (rewrite Eqq, somes_map_Some, map_length; reflexivity).
+      assert (Hlt : Nat.ltb (length encq) (qcap p) = true) by (apply Nat.ltb_lt; unfold qcap; lia).
+      rewrite Hlt. eexists. reflexivity.
+    + (* sending the stop tokens *)
+      cbn [sent_of] in *.
+      destruct (Nat.eq_dec sent (p_workers p)) as [->|Hne].
+      * exists LFDone. cbn [step s_f s_m]. rewrite Nat.eqb_refl. eexists. reflexivity.
+      * destruct (Nat.ltb (length encq) (qcap p)) eqn:Ecap.
+        -- exists LFStop. cbn [step s_f s_encq]. assert (Hs : Nat.ltb sent (p_workers p) = true) by (apply Nat.ltb_lt; lia).
+           rewrite Hs, Ecap. eexists. reflexivity.
+        -- apply Hrecv; [lia|]. intros ->. cbn in Ecap. discriminate.
+    + exfalso. apply Jd; [exists fl; reflexivity | reflexivity].
+  - (* about to stop the hashing thread *)
+    destruct (Nat.ltb (length hashq) HASH_CAP) eqn:Ecap.
+    + exists LMStopHash. cbn [step s_m s_hashq]. rewrite Ecap. eexists. reflexivity.
+    + destruct h.
+      * exists LHRecv. cbn [step s_h s_hashq]. destruct hashq as [|[j|] r]; [cbn in Ecap; discriminate | |]; eexists; reflexivity.
+      * specialize (Hhx eq_refl). subst xs. cbn [map app] in Eqh. subst hashq.
+        assert (Hk : cnone (repeat (@None nat) k) = k).
+        { clear. induction k as [|k IH]; [reflexivity|]. cbn [repeat]. rewrite cnone_cons_None, IH. reflexivity. }
+        rewrite Hk in Jh. cbn [hexit stopped] in Jh. rewrite repeat_length in Ecap.
+        assert (k <= 1) by (destruct f as [| | |? []|[]]; cbn [eoi] in Jh; lia).
+        apply Nat.ltb_ge in Ecap. unfold HASH_CAP in Ecap. lia.
+  - (* waiting for the hashing thread *)
+    destruct h.
+    + exists LHRecv. cbn [step s_h s_hashq]. cbn [hexit stopped] in Jh.
+      assert (Hq : hashq <> []) by (apply cnone_pos_nonempty; lia).
+      destruct hashq as [|[j|] r]; [contradiction | |]; eexists; reflexivity.
+    + exists LMJoinHash. eexists. reflexivity.
+  - (* waiting for the workers *)
+    destruct (forallb (fun w0 => match w0 with WExit => true | _ => false end) w) eqn:Eall.
+    + exists LMJoinWorkers. cbn [step s_m s_w]. rewrite Eall. eexists. reflexivity.
+    + destruct (Hc1 ltac:(discriminate)) as [fl ->]. cbn [sent_of] in *.
+      assert (Hlt : cexit w < p_workers p).
+      { destruct (Nat.lt_ge_cases (cexit w) (p_workers p)) as [H|H]; [exact H|]. exfalso.
+        assert (Hall : forallb (fun w0 => match w0 with WExit => true | _ => false end) w = true) by (apply all_exit_of_count; lia).
+        rewrite Hall in Eall. discriminate. }
+      apply Hrecv; [exact Hlt|]. apply cnone_pos_nonempty. lia.
+Qed.
+
+Theorem inv2_run p : forall ls s s', Inv2 p s -> run p s ls = Some s' -> Inv2 p s'.
+Proof.
+  induction ls as [|l r IH]; intros s s' HI E; cbn [run] in E.
+  - inversion E; subst. exact HI.
+  - destruct (step p s l) as [s1|] eqn:Es; [|discriminate]. eapply IH; [eapply inv2_step; eassumption | exact E].
+Qed.
+
+(* C06, general: no reachable state of the protocol is stuck before the final state *)
+Theorem deadlock_free p ls s :
+  1 <= p_workers p -> run p (init p) ls = Some s -> final s = false -> exists l s', step p s l = Some s'.
+Proof.
+  intros HW E Hf. apply progress; [exact HW | eapply inv_run; [apply inv_init | exact E] | eapply inv2_run; [apply inv2_init | exact E] | exact Hf].
+Qed.
+
+Lemma run_app p : forall a b s s1 s2, run p s a = Some s1 -> run p s1 b = Some s2 -> run p s (a ++ b) = Some s2.
+Proof.
+  induction a as [|l r IH]; intros b s s1 s2 Ha Hb; cbn [run app] in *.
+  - inversion Ha; subst. exact Hb.
+  - destruct (step p s l) as [s'|]; [|discriminate]. eapply IH; eassumption.
+Qed.
+
+(* ... and, since every step decreases the potential, every run can be continued to the final state, where the
+   result is the single-threaded one: however the threads are scheduled, the call completes with that result *)
+Theorem always_completes p : 1 <= p_workers p -> forall n s, Inv p s -> Inv2 p s -> potential p s <= n ->
+  exists ls s', run p s ls = Some s' /\ final s' = true.
+Proof.
+  intros HW. induction n as [|n IH]; intros s HI HJ Hpot.
+  - destruct (final s) eqn:Hf; [exists [], s; split; [reflexivity | exact Hf]|].
+    destruct (progress p s HW HI HJ Hf) as (l & s1 & Es). pose proof (potential_decreases p s l s1 HI Es). lia.
+  - destruct (final s) eqn:Hf; [exists [], s; split; [reflexivity | exact Hf]|].
+    destruct (progress p s HW HI HJ Hf) as (l & s1 & Es). pose proof (potential_decreases p s l s1 HI Es) as Hd.
+    destruct (IH s1 (inv_step p s l s1 HI Es) (inv2_step p s l s1 HJ Es) ltac:(lia)) as (ls & s' & Er & Hfin).
+    exists (l :: ls), s'. split; [cbn [run]; rewrite Es; exact Er | exact Hfin].
+Qed.
+
+Corollary reachable_completes p ls s :
+  1 <= p_workers p -> run p (init p) ls = Some s ->
+  exists ls' s', run p (init p) (ls ++ ls') = Some s' /\ final s' = true /\ result_of s' = seq_result p.
+Proof.
+  intros HW E.
+  pose proof (inv_run p ls (init p) s (inv_init p) E) as HI. pose proof (inv2_run p ls (init p) s (inv2_init p) E) as HJ.
+  destruct (always_completes p HW (potential p s) s HI HJ (le_n _)) as (ls' & s' & Er & Hf).
+  exists ls', s'. pose proof (run_app p ls ls' (init p) s s' E Er) as Hrun.
+  split; [exact Hrun|]. split; [exact Hf|]. eapply par_refines_seq; eassumption.
+Qed.
